@@ -54,6 +54,7 @@ type Spec struct {
 	Flag    int    `json:"flag,omitempty"`    // lookup flag of the top-level lookups (0 or 0x8 IgnoreMarks)
 	Alt     int    `json:"alt,omitempty"`     // number of alternates / variant selector
 	Wide    bool   `json:"wide,omitempty"`    // coverage sets hold several glyphs instead of one
+	Seed    int64  `json:"seed,omitempty"`    // generated-rules kinds (rules.go): everything not named by a field is drawn from it
 }
 
 // Chooser yields bounded choices (shapecase.Source satisfies it).
@@ -126,6 +127,9 @@ func DrawSpec(s Chooser) Spec {
 // Letters returns the runes whose glyphs the generated lookups cover (texts for the font should be
 // made mostly of them) followed by a few runes they do not cover.
 func (sp Spec) Letters() (covered, other []rune) {
+	if isRuleKind(sp.Kind) {
+		return ruleLetters, append(append([]rune{}, ruleMarks...), ruleExtras...)
+	}
 	switch sp.Kind {
 	case KindPairClasses:
 		return []rune("abcdefghijklmnopqrstuvwxyz"), []rune{' ', 'A', '1', 0x0301}
@@ -175,6 +179,11 @@ func loadBase() {
 	}
 	baseGlyph = map[rune]uint16{}
 	for r := rune(0x20); r < 0x7F; r++ {
+		if g, ok := face.NominalGlyph(r); ok {
+			baseGlyph[r] = uint16(g)
+		}
+	}
+	for _, r := range append(append([]rune{}, ruleMarks...), ruleExtras...) {
 		if g, ok := face.NominalGlyph(r); ok {
 			baseGlyph[r] = uint16(g)
 		}
@@ -418,17 +427,27 @@ func Build(sp Spec) (out []byte, err error) {
 			err = fmt.Errorf("synthfont: %v", r)
 		}
 	}()
-	known := false
+	known := isRuleKind(sp.Kind)
 	for _, k := range Kinds {
 		known = known || k == sp.Kind
 	}
 	if !known {
 		return nil, fmt.Errorf("synthfont: unknown kind %q", sp.Kind)
 	}
-	gsub, gpos := sp.layouts()
 	tabs := map[string][]byte{}
 	for k, v := range baseTables {
 		tabs[k] = v
+	}
+	var gsub, gpos *Layout
+	if isRuleKind(sp.Kind) {
+		var gdef []byte
+		gsub, gpos, gdef, err = sp.ruleLayouts()
+		if err != nil {
+			return nil, err
+		}
+		tabs["GDEF"] = gdef
+	} else {
+		gsub, gpos = sp.layouts()
 	}
 	for name, l := range map[string]*Layout{"GSUB": gsub, "GPOS": gpos} {
 		if l == nil {
